@@ -84,3 +84,19 @@ Fixpoint failures_from (i : Z) (cs : list case) : list (Z * bool * bool * Z) :=
       if m && s then failures_from (i + 1) t else (i, m, s, k) :: failures_from (i + 1) t
   end.
 Definition failures := failures_from 0.
+
+(* diagnosis aid: index of the first operation on which model and implementation differ, with both results *)
+Fixpoint first_diff (i : Z) (a : list (out val * Z)) (b : list (out val)) : option (Z * option (out val) * option (out val)) :=
+  match a, b with
+  | [], [] => None
+  | (x, _) :: a', y :: b' => if out_eqb val val_eqb x y then first_diff (i + 1) a' b' else Some (i, Some x, Some y)
+  | (x, _) :: _, [] => Some (i, Some x, None)
+  | [], y :: _ => Some (i, None, Some y)
+  end.
+Definition diagnose (c : case) :=
+  match c with
+  | Case rootpg np keys steps =>
+      let tbl := map expand keys in
+      let ops := map (fun s => to_op tbl (fst s)) steps in
+      first_diff 0 (m_run rootpg np ops) (map (fun s => to_out tbl (snd s)) steps)
+  end.
